@@ -66,3 +66,64 @@ def handles_reach(sp: int, s0: int, s1: int, q1: int, pack: bool, clean: bool, q
     post: _
     """
     return _handles('reach', sp, s0, s1, q1, pack, clean, q2)
+
+
+def _query(h, w, q, pairs):
+    """one view of handle h over the acknowledged objects `pairs`; q: 0 has, 1 get (bulk), 2 meta, 3 list, 4 single get"""
+    objs = objs_map(w, pairs)
+    keys = list(objs)
+    if q == 0:
+        return h.has_objects(keys) == [True] * len(keys)
+    if q == 1:
+        out = h.get_objects_content(keys)
+        ok = len(out) == len(keys)
+        for k in keys:
+            ok = ok and k in out and out[k] == w.content(*objs[k])
+        return ok
+    if q == 2:
+        metas = dict(h.get_objects_meta(keys, skip_if_missing=False))
+        return all(metas[k].size == objs[k][1] for k in keys)
+    if q == 3:
+        return sorted(h.list_all_objects()) == sorted(keys)
+    ok = True
+    for k in keys:
+        ok = ok and h.get_object_content(k) == w.content(*objs[k])
+    return ok
+
+
+def _handles3(sp, s0, q1, q2, q3, pack1, clean1, pack2, clean2):
+    """three handles: H (long-open, under test), A (adds loose objects), B (packs and cleans).  H queries, A adds, B may
+    pack/clean, H queries again (everything acknowledged so far), A adds, B may pack/clean, H itself adds, H queries."""
+    w = make_world(10**9)
+    try:
+        w.set_pack(0, [('obj', 2, sp)])
+        h, a, b = w.c, w.new_handle(), w.new_handle()
+        if q1 < 5 and not _query(h, w, q1, [(2, sp)]):
+            return False
+        a.add_streamed_object(w.stream(0, s0))
+        if pack1:
+            b.pack_all_loose()
+        if clean1:
+            b.clean_storage()
+        if not _query(h, w, q2, [(2, sp), (0, s0)]):
+            return False
+        a.add_streamed_object(w.stream(1, 7))
+        if pack2:
+            b.pack_all_loose(clean_loose_per_pack=clean2)
+        if clean2:
+            b.clean_storage()
+        h.add_streamed_object(w.stream(3, 9))
+        ok = _query(h, w, q3, [(2, sp), (0, s0), (1, 7), (3, 9)])
+        a.close()
+        b.close()
+        return ok
+    finally:
+        w.cleanup()
+
+
+def handles3(sp: int, s0: int, q1: int, q2: int, q3: int, pack1: bool, clean1: bool, pack2: bool, clean2: bool) -> bool:
+    """
+    pre: 1 <= sp <= 70000 and 1 <= s0 <= 70000 and 0 <= q1 <= 5 and 0 <= q2 <= 4 and 0 <= q3 <= 4
+    post: _
+    """
+    return _handles3(sp, s0, q1, q2, q3, pack1, clean1, pack2, clean2)
